@@ -120,7 +120,8 @@ fn c11_discard_one_cluster() {
         let new = tbl.get(idx);
         let m = new.into_mapping(&env.info, &SplitGuestOffset(guest));
         // reads as zeros, never from the backing chain
-        assert!(m.source == MappingSource::Zero || (m.source == MappingSource::Unallocated && !has_back));
+        let reads_zero = m.source == MappingSource::Zero || (m.source == MappingSource::Unallocated && !has_back);
+        assert!(reads_zero);
         // the old cluster is no longer referenced by the new entry
         assert!(spec::l2_allocation(new.0, g.cb).1 == 0);
         assert!(h.is_dirty() && env.need_flush_meta());
